@@ -197,8 +197,11 @@ func (b *Bytecode) RemoveDuplicates() {
 				deduped = append(deduped, c)
 			}
 		default:
-			panic(fmt.Errorf("unsupported top-level constant type: %s",
-				c.TypeName()))
+			// constants of other types (e.g. the Object returned by a custom
+			// Importable) are kept as they are, without de-duplication
+			newIdx := len(deduped)
+			indexMap[curIdx] = newIdx
+			deduped = append(deduped, c)
 		}
 	}
 
